@@ -164,6 +164,7 @@ func recordNodes(args []string) int {
 	seed := fs.Int64("seed", 1, "seed")
 	n := fs.Int("n", 500, "programs")
 	one := fs.String("one", "", "re-execute the program of this event")
+	profile := fs.String("profile", "all", "all | arith (long literals, wide exponents, arithmetic and numeric builtins)")
 	fs.Parse(args)
 	desc, _ := tlaval.AsMap(progDataDesc)
 	var evs []map[string]any
@@ -233,7 +234,7 @@ func recordNodes(args []string) int {
 	} else {
 		rng := rand.New(rand.NewSource(*seed))
 		for k := 0; k < *n; {
-			g := &progGen{rng: rng, divs: -3} // several divisions per program: each node is judged on its own
+			g := &progGen{rng: rng, divs: -3, arith: *profile == "arith"} // several divisions per program: each node is judged on its own
 			text := g.gen(2 + rng.Intn(3))
 			if len(text) > 300 {
 				continue
